@@ -109,6 +109,13 @@ class SccLine:
 
     debug = str(self.time_code) + "\t"
 
+    # a control code is the redundant copy of the previous one only if it is sent in the next frame
+
+    if context.next_line_frames is not None and context.next_line_frames != self.time_code.to_frames():
+      context.previous_word = None
+
+    context.next_line_frames = self.time_code.to_frames() + len(self.scc_words)
+
     for scc_word in self.scc_words:
 
       if context.previous_word is not None and context.previous_word.value == scc_word.value and context.previous_word.is_code():
